@@ -115,9 +115,18 @@ def run(rd, emit, log, enum_values, ti_default):
     body += 'Definition f_cw_emit_string_quotes_escaped : option bool := %s.\n' % ('Some true' if q else 'None')
     b = fn_body(cw, r'void\s+ConfigWriter::EmitNumber\s*\(')
     nf = bool(b and re.match(r'\s*fp\s*<<\s*std::fixed\s*<<\s*val\s*;\s*$', b))
-    if not nf: log.append('C17: EmitNumber not recognised')
     body += '(* true = `fp << std::fixed << val` (default precision 6) *)\n'
     body += 'Definition f_cw_number_fixed6 : option bool := %s.\n' % ('Some true' if nf else 'None')
+    # the round-trip form: six decimals, more only while strtod of the text differs from the value
+    rt = None
+    if nf:
+        rt = 'false'
+    elif b and re.search(r'buf\s*<<\s*std::fixed\s*<<\s*val\s*;', b) and re.search(r'for\s*\(\s*int\s+precision\s*=\s*7\s*;[^;]*strtod\(buf\.str\(\)\.c_str\(\),\s*nullptr\)\s*!=\s*val[^;]*;\s*precision\+\+\s*\)', b) \
+            and re.search(r'std::setprecision\(precision\)\s*<<\s*val', b) and re.search(r'fp\s*<<\s*std::fixed\s*<<\s*buf\.str\(\)\s*;\s*$', b):
+        rt = 'true'
+    if rt is None: log.append('C17: EmitNumber round-trip form not recognised')
+    body += '(* true = six decimals, raised until the text reads back as the same double; false = always six decimals *)\n'
+    body += 'Definition f_cw_number_roundtrip : option bool := %s.\n' % ('Some ' + rt if rt else 'None')
     # ---- lexer keywords: lines `word   return T_...;` / `word { yylval->boolean = ...` inside <INITIAL>{ }
     lkws = []
     for m in re.finditer(r'^([a-z_]+)[ \t]+(?:return\s+T_[A-Z_]+\s*;|\{\s*yylval->boolean\s*=\s*[01]\s*;\s*return\s+T_BOOLEAN\s*;\s*\})\s*$', lx, re.M):
